@@ -88,7 +88,7 @@ class Registry:
             return True
         return any(self.is_subclass(b, base) for b in self.bases.get(cls, []))
 
-    def lookup_method(self, cls, name, args=None):
+    def lookup_method(self, cls, name, args=None, kwargs=None):
         """The contract of method `name` for class `cls` (or a base).  Several contracts may exist
         for one method (scalar and sequence forms of an argument): with the actual arguments given
         the first whose parameter specs fit their shapes is taken."""
@@ -97,7 +97,7 @@ class Registry:
         for k in seen:
             for c in self.contracts.values():
                 if c.cls == k and c.name == name:
-                    if args is None or _args_fit(c, args):
+                    if args is None or _args_fit(c, args, kwargs):
                         return c
                     first = first or c
         return first
@@ -122,8 +122,9 @@ class Registry:
             c = self.lookup_method(k, m)
             if c is not None:
                 return c
+        # a relational (two-run) contract is a theorem about the function, not its call contract
         for c in self.contracts.values():
-            if c.cls is None and c.name == short:
+            if c.cls is None and c.name == short and not getattr(c, 'relate', None):
                 return c
         return None
 
@@ -341,13 +342,18 @@ def make_symbolic(spec, name, reg, st):
     raise Unsupported(f'type spec {spec!r}')
 
 
-def _args_fit(c, args):
+def _args_fit(c, args, kwargs=None):
     """Shape compatibility of actual arguments (after self) with the contract's parameter specs:
     a scalar spec needs a scalar, a sequence / array spec needs a sequence or array."""
     from .values import is_num
     names = [n for n in c.params if n not in ('self', 'cls')]
-    for n, a in zip(names, args):
+    pairs = list(zip(names, args)) + [(k, v) for k, v in (kwargs or {}).items() if k in c.params]
+    for n, a in pairs:
         spec = c.params[n]
+        if spec == ('const', None) and a is not None:
+            return False
+        if a is None and isinstance(spec, tuple) and spec and spec[0] in ('seq', 'arr'):
+            return False
         scalar_spec = spec in ('int', 'nat', 'pos', 'real', 'posreal', 'bool', 'str')
         seq_spec = isinstance(spec, tuple) and spec and spec[0] in ('seq', 'arr')
         if scalar_spec and isinstance(a, (SSeq, SArr, list, tuple)):
